@@ -670,6 +670,39 @@ Theorem C03_gen_begins_rec_eq :
 Proof. exact @gen_begins_rec_eq. Qed.
 Print Assumptions C03_gen_begins_rec_eq.
 
+(* the WHOLE generated NC_begins for a file without a saved old header (ncp->old == NULL): for every header and every h_minfree / v_minfree / h_align / r_align / previous begin_rec satisfying begins_guards (no 63-bit overflow: one potential bound; well-formed sizes) and with the safe-mode consistency test not taken, it returns NC_EVARSIZE exactly when Header.begins gives None, else NC_NOERR with xsz, begin_var, begin_rec, recsize (single-record-variable packing) and every variable's begin as Header.begins says, and numrecs reset for a new file *)
+Theorem C03_gen_begins_eq :
+  forall (h : Header.hdr) (hm vm ha ra pbr flags sm np : Z),
+         (z2b sm && (np >? 1)%Z)%bool = false ->
+         begins_guards h hm vm ha ra pbr ->
+         exists (rc : Z) (s' : st_NC_begins),
+           NC_begins_c (c_view_nc2 h hm vm ha ra pbr flags sm np) (Header.hdr_len h) = FValS rc s' /\
+           match Header.begins h hm vm ha ra None pbr with
+           | Some lay =>
+               rc = Gen_consts.NC_NOERR /\
+               layout_of_state s' = lay /\
+               NC__numrecs (NC_begins__P_ncp s') =
+               (if z2b (Z.land flags 32768) then 0%Z else Header.h_numrecs h)
+           | None => rc = Gen_consts.NC_EVARSIZE
+           end.
+Proof. exact @gen_begins_eq. Qed.
+Print Assumptions C03_gen_begins_eq.
+
+Theorem C03_begins_guards_ex :
+  begins_guards
+           {|
+             Header.h_format := 2;
+             Header.h_numrecs := 0;
+             Header.h_dims := exb_dims;
+             Header.h_gatts := nil;
+             Header.h_vars :=
+               exb_var 97 (1%Z :: 2%Z :: nil) 3
+               :: exb_var 98 (0%Z :: 1%Z :: nil) 5
+                  :: exb_var 99 (2%Z :: nil) 1 :: exb_var 100 (0%Z :: 2%Z :: nil) 6 :: nil
+           |} 0 0 512 4 0.
+Proof. exact @begins_guards_ex. Qed.
+Print Assumptions C03_begins_guards_ex.
+
 (* the WHOLE generated NC_begins (header extent, alignment round-ups, both loops, single-record-variable packing) computes the layout of Header.begins on concrete headers of every shape class (vm_compute) *)
 Theorem C03_gen_begins_runs :
   begins_agree
